@@ -73,14 +73,15 @@ def run_one(args):
         shutil.rmtree(tmp, ignore_errors=True)
 
 def main():
-    workers, only, gen2 = 4, None, False
+    workers, only, gen2, gen3 = 4, None, False, False
     a = sys.argv[1:]
     while a:
         if a[0] == "--workers": workers = int(a[1]); a = a[2:]
         elif a[0] == "--only": only = a[1]; a = a[2:]
         elif a[0] == "--gen2": gen2 = True; a = a[1:]
+        elif a[0] == "--gen3": gen3 = True; a = a[1:]
         else: a = a[1:]
-    out = subprocess.run([os.path.join(VERIF, "bin/mutgen"), REPO] + (["-gen2"] if gen2 else []), capture_output=True, text=True).stdout
+    out = subprocess.run([os.path.join(VERIF, "bin/mutgen"), REPO] + (["-gen2"] if gen2 else []) + (["-gen3"] if gen3 else []), capture_output=True, text=True).stdout
     muts = [json.loads(l) for l in out.splitlines() if l.strip()]
     if only: muts = [m for m in muts if only in m["file"] or only in m["func"]]
     props = load_map()
